@@ -899,6 +899,9 @@ ALLOWED_REJECTIONS = (
     "Cannot represent constant in this unit/rep",
     "Value outside range of destination type",
     "Cannot represent non-integer in integral destination type",
+    # `constexpr R threshold{1'000'000};` for a rep that cannot hold the literal (g++ / clang wording)
+    "narrowing conversion of '1000000'",
+    "cannot be narrowed to type",
 )
 
 
